@@ -476,6 +476,24 @@ def lateCyclesBy (rank : Nat → Nat) (h : Heap) : Bool :=
       | some p, _ => decide (rank p ≤ rank o)
       | none, _ => true
 
+/-- no class has a `__setgluestate_callback__` field -/
+def noCb (h : Heap) : Bool := h.all fun ob => ob.fields.all fun f => f.phase != .cb
+
+/-- One relaxation step of "largest number of early edges on a path below `o`". -/
+def relaxRanks (h : Heap) (r : List Nat) : List Nat :=
+  h.map fun ob => (ob.fields.map fun f =>
+    match f.val.target with
+    | some p => r.getD p 0 + (if f.phase == .early then 1 else 0)
+    | none => 0).foldl max 0
+
+def iterRanks (h : Heap) : Nat → List Nat
+  | 0 => h.map fun _ => 0
+  | k + 1 => relaxRanks h (iterRanks h k)
+
+/-- The driver's candidate rank for graphs with late-edge cycles; `lateCyclesBy (candidateRank h) h`
+then *checks* that it is one. -/
+def candidateRank (h : Heap) : Nat → Nat := fun o => (iterRanks h (h.length + 1)).getD o 0
+
 /-! ## Saver / loader dispatch over a class table -/
 
 structure ClassRow where
